@@ -176,6 +176,19 @@ def handle (st : St) (toks : List String) : Option (St × String) :=
     -- a zeroed buffer of more than 4 GiB cannot be a list here; the answer is the one `C04_unrepresentable_length`
     -- and `C04_alloc_atomic` prove for *every* buffer: not a success, bytes untouched
     pure (st, "err head=" ++ Hex.ofBytes (Bytes.zeros 32))
+  | ["bigrealloc", k, _] => do
+    -- two small entries at the head of a zeroed buffer of more than 4 GiB, then a resize of the first to 2^32 + extra:
+    -- the head is what the model's own alloc / write produce on 64 bytes; the resize fails and leaves it (`C04_realloc_atomic`,
+    -- `Tlv.lengthFromUsize` rejects every length ≥ 2^32)
+    let k ← k.toNat?
+    let ta ← tag? (toString (4 * (k % 2)))
+    let tb ← tag? (toString (4 * (k % 2) + 1))
+    let d0 := Bytes.zeros 64
+    let (d1, _) := alloc d0 ta 4 false
+    let (d2, _) := writeValue d1 ta 0 [0xa1, 0xa2, 0xa3, 0xa4]
+    let (d3, _) := alloc d2 tb 3 false
+    let (d4, _) := writeValue d3 tb 0 [0xb1, 0xb2, 0xb3]
+    pure (st, "err head=" ++ Hex.ofBytes d4)
   | ["B", _, "tlv", _, h] => do
     let d ← Hex.toBytes h
     pure (some d, "begin")
